@@ -48,6 +48,9 @@ CHECKS = {
  "C20": dict(engine="E5", technique="exhaustive enumeration of option subsets / values / CLI spellings / socket lists against a reference exclusion table and reference casts",
    text="All subsets of the mutually exclusive address options x proxy-trust option combinations are accepted or refused exactly as the reference exclusion table says; every adjustment x values of its type is applied as the documented cast; --x / --no-x / --x=v / repeated --listen give the same settings as the keyword form, attribute by attribute; socket lists up to length 3 over four kinds are validated; the option names of docs/arguments.rst, docs/runner.rst and the runner help text equal the implemented table.",
    note="numeric hosts only (hermetic getaddrinfo); docs compared by option name", ref="DESIGN.md §4 C20"),
+ "C11": dict(engine="E1", technique="stateless exhaustive schedule enumeration (deviation bounded) of the I/O thread reading further input against the worker taking the close decision",
+   text="For every combination of closing first message (Connection: close, HTTP/1.0, malformed -> error response, response that cannot be delimited, client EOF) x what follows (complete request, partial request, garbage, two requests) x same read / later segment x lookahead {0,1,2,5} x 1-2 workers, every interleaving within the bound is executed: no request behind the closing message is ever handed to the application, none twice, and no application entry happens after the first scheduling point at which the close decision is visible.",
+   note="as C04; the closing message index comes from a sequential reference run", ref="DESIGN.md §4 C11"),
  "C12": dict(engine="E1", technique="stateless exhaustive schedule enumeration (deviation bounded) of one producing worker against the draining I/O thread and a scripted client",
    text="For a grid of outbuf_high_watermark {0,1,8,64} x send_bytes {1,8,100} x write sizes around the mark x client behaviours (partial drains then reading on, stall, reset or EOF at any point) every interleaving within the bound is executed: pending output sampled at every scheduling point never exceeds watermark + one write, a paused producer is never left waiting with space available, with the client reading, or after a disconnect, the client log is always a prefix of the expected stream and the iterable is closed after a disconnect.",
    note="as C04; the largest single write is measured at write_soon()", ref="DESIGN.md §4 C12"),
